@@ -9,244 +9,13 @@ inductive notion of valid strategy by `checkStrat_sound`, and through `run_chain
 theorem (all n, all strategies) — so "every row drives the chain routines correctly for its length"
 is: row valid (here) + traversal theorem (SqiModel.Strategy, C09/C12).
 -/
-import SqiModel.Strategy
-import SqiModel.Mat2
-import SqiModel.Fp2N
-import SqiGen.Tables1
-import SqiGen.Tables3
-import SqiGen.Tables5
+import SqiProps.C18L1
+import SqiProps.C18L3
+import SqiProps.C18L5
 import SqiProofs.Primes
 
-set_option maxRecDepth 100000
-
 namespace SqiProps.C18
-open SqiModel
 
-/-- all rows i of a table are valid zero-padded strategies for `leaves i` leaves, and have exactly `cols` entries -/
-def rowsValid (leaves : Nat → Nat) (cols : Nat) (table : List (List Nat)) : Bool :=
-  (table.zipIdx).all fun (row, i) => checkStrat (leaves i) row && row.length == cols
-
-/-- list the indices of bad rows (used by the violation search through the driver / #eval) -/
-def badRows (leaves : Nat → Nat) (cols : Nat) (table : List (List Nat)) : List Nat :=
-  (table.zipIdx).filterMap fun (row, i) => if checkStrat (leaves i) row && row.length == cols then none else some i
-
-theorem rowsValid_sound {leaves : Nat → Nat} {cols : Nat} {table : List (List Nat)}
-    (h : rowsValid leaves cols table = true) (i : Nat) (hi : i < table.length) :
-    ∃ s pad, Strat (leaves i) s ∧ table[i] = s ++ pad ∧ (∀ x ∈ pad, x = 0) ∧ s.length = leaves i - 1 := by
-  unfold rowsValid at h
-  rw [List.all_eq_true] at h
-  have hm : (table[i], i) ∈ table.zipIdx := by
-    rw [List.mem_zipIdx_iff_getElem?]; simp [hi]
-  have := h _ hm
-  simp only [Bool.and_eq_true] at this
-  exact checkStrat_sound _ _ this.1
-
-/-! ## level 1 -/
-section L1
-open SqiGen.L1
-
-theorem L1_p_plus_one : FP_p + 1 = p_cofactor_for_2f * 2 ^ D_POWER_OF_2 := by decide +kernel
-theorem L1_p_mod4 : FP_p % 4 = 3 := by decide +kernel
-theorem L1_p_limbs : FP_p_limbs.length = D_NWORDS_FIELD ∧ FP_p_limbs.all (· < 2 ^ 64) = true := by decide +kernel
-theorem L1_p_fits : FP_p < 2 ^ (64 * D_NWORDS_FIELD) ∧ 2 ^ (64 * D_NWORDS_FIELD - 8) ≤ 2 * FP_p := by decide +kernel
-theorem L1_one_is_R : FP_ONE = 2 ^ (64 * D_NWORDS_FIELD) % FP_p ∧ FP_ZERO = 0 := by decide +kernel
-theorem L1_TWOpF : TWOpF = 2 ^ D_POWER_OF_2 ∧ 2 * TWOpFm1 = TWOpF ∧ TWOpF_limbs.length = D_NWORDS_ORDER := by decide +kernel
-theorem L1_torsion_consts : W64.TORSION_PLUS_EVEN_POWER = D_POWER_OF_2 ∧ W64.CHARACTERISTIC = (FP_p : Int) ∧
-    W64.TORSION_PLUS_2POWER = (2 : Int) ^ D_POWER_OF_2 ∧ W64.DEGREE_CHALLENGE = (2 : Int) ^ D_POWER_OF_2 ∧
-    W64.QUATALG_PINFTY_p = (FP_p : Int) ∧
-    W64.QUATALG_PINFTY_gram = [[1, 0, 0, 0], [0, 1, 0, 0], [0, 0, (FP_p : Int), 0], [0, 0, 0, (FP_p : Int)]] := by decide +kernel
-theorem L1_p_minus_one : (FP_p - 1) % (W64.TORSION_ODD_MINUS.toNat) = 0 ∧ (FP_p + 1) % (W64.TORSION_ODD_PLUS.toNat) = 0 ∧
-    W64.TORSION_ODD = W64.TORSION_ODD_PLUS * W64.TORSION_ODD_MINUS := by decide +kernel
-theorem L1_widths_agree : WIDTH16_all = WIDTH64_all ∧ WIDTH32_all = WIDTH64_all := by decide +kernel
-theorem L1_sizes : D_SQIsign2D_response_length + 2 ≤ D_POWER_OF_2 ∧ D_BITS = 64 * D_NWORDS_FIELD ∧
-    D_FP_ENCODED_BYTES = 8 * D_NWORDS_FIELD ∧ D_FP2_ENCODED_BYTES = 2 * D_FP_ENCODED_BYTES ∧
-    D_POWER_OF_2 ≤ 8 * D_TORSION_2POWER_BYTES ∧ D_POWER_OF_2 < 64 * D_NWORDS_ORDER := by decide +kernel
-
-/-- every row `i` of the 4-isogeny strategy table is a valid strategy for the ⌊(f-i)/2⌋ 4-isogeny steps of a chain of length f-i -/
-theorem L1_STRATEGY4_rows : rowsValid (fun i => (D_POWER_OF_2 - i) / 2) STRATEGY4_cols STRATEGY4 = true := by decide +kernel
-/-- every row `i` of the dimension-2 strategy table is a valid strategy for a (2,2)-chain of length f-i -/
-theorem L1_strategies_rows : rowsValid (fun i => D_POWER_OF_2 - i) strategies_cols strategies = true := by decide +kernel
-/-- the tables have exactly as many rows as lengths the code can ask for, and no row needs more columns than declared -/
-theorem L1_table_shapes : STRATEGY4.length = strategies.length ∧ STRATEGY4.length ≤ D_POWER_OF_2 ∧
-    STRATEGY4_cols = D_POWER_OF_2 / 2 ∧ strategies_cols + 1 = D_POWER_OF_2 := by decide +kernel
-
-/-- ring relations of the endomorphism action on E0[2^f] (generators 1, i, (i+j)/2, (1+k)/2 of O0) -/
-theorem L1_action_relations :
-    let N : Int := 2 ^ D_POWER_OF_2
-    Mat2.wellShaped W64.ACTION_I && Mat2.wellShaped W64.ACTION_J && Mat2.wellShaped W64.ACTION_K &&
-    Mat2.wellShaped W64.ACTION_GEN2 && Mat2.wellShaped W64.ACTION_GEN3 && Mat2.wellShaped W64.ACTION_GEN4 &&
-    Mat2.eqMod N (Mat2.mul W64.ACTION_I W64.ACTION_I) (Mat2.scalar (-1)) &&
-    Mat2.eqMod N (Mat2.mul W64.ACTION_J W64.ACTION_J) (Mat2.scalar (-(FP_p : Int))) &&
-    Mat2.eqMod N (Mat2.mul W64.ACTION_I W64.ACTION_J) W64.ACTION_K &&
-    Mat2.eqMod N (Mat2.mul W64.ACTION_J W64.ACTION_I) (Mat2.smul (-1) W64.ACTION_K) &&
-    Mat2.eqMod N W64.ACTION_GEN2 W64.ACTION_I &&
-    Mat2.eqMod N (Mat2.smul 2 W64.ACTION_GEN3) (Mat2.add W64.ACTION_I W64.ACTION_J) &&
-    Mat2.eqMod N (Mat2.smul 2 W64.ACTION_GEN4) (Mat2.add (Mat2.scalar 1) W64.ACTION_K) = true := by decide +kernel
-/-- determinant = reduced norm (mod 2^f): n(i)=1, n(j)=p, n(k)=p, n((i+j)/2)=(1+p)/4, n((1+k)/2)=(1+p)/4 -/
-theorem L1_action_dets :
-    let N : Int := 2 ^ D_POWER_OF_2
-    (Mat2.det W64.ACTION_I - 1) % N = 0 ∧ (Mat2.det W64.ACTION_J - FP_p) % N = 0 ∧ (Mat2.det W64.ACTION_K - FP_p) % N = 0 ∧
-    (Mat2.det W64.ACTION_GEN3 - ((FP_p : Int) + 1) / 4) % N = 0 ∧ (Mat2.det W64.ACTION_GEN4 - ((FP_p : Int) + 1) / 4) % N = 0 := by decide +kernel
-
-/-- non-vacuity / lifting: row 0 really is a strategy in the inductive sense, hence drives the machine -/
-example : ∃ s pad, Strat (D_POWER_OF_2 - 0) s ∧ strategies[0]! = s ++ pad :=
-  let ⟨s, pad, h1, h2, _, _⟩ := rowsValid_sound L1_strategies_rows 0 (by decide +kernel)
-  ⟨s, pad, h1, by rw [← h2]; rfl⟩
-
-/-- the base curve is y² = x³ + x: (A : C) = (0 : c), c ≠ 0 -/
-theorem L1_curve_E0 : Fp2N.isZero FP_p W64.CURVE_E0.1 = true ∧ Fp2N.isZero FP_p W64.CURVE_E0.2 = false := by decide +kernel
-/-- the precomputed 2^f-torsion basis of E0: P, Q (and the stored third point) have exact order 2^f under the
-    verified doubling formula, and [2^(f-1)]P ≠ [2^(f-1)]Q, so P and Q generate E0[2^f] -/
-theorem L1_basis_even_orders :
-    W64.BASIS_EVEN.length = 3 ∧
-    W64.BASIS_EVEN.all (fun P => Fp2N.exactOrder2f FP_p W64.CURVE_E0.1 W64.CURVE_E0.2 D_POWER_OF_2 P) = true ∧
-    Fp2N.projEq FP_p (Fp2N.xDBLiter FP_p W64.CURVE_E0.1 W64.CURVE_E0.2 (D_POWER_OF_2 - 1) (W64.BASIS_EVEN[0]!))
-                     (Fp2N.xDBLiter FP_p W64.CURVE_E0.1 W64.CURVE_E0.2 (D_POWER_OF_2 - 1) (W64.BASIS_EVEN[1]!)) = false := by
-  decide +kernel
-/-- the 20 table entries used as x-coordinates of points not above (0,0) are non-squares in GF(p²) -/
-theorem L1_nqr_table : W64.NQR_TABLE.length = 20 ∧ W64.NQR_TABLE.all (fun x => !Fp2N.isSquare FP_p x) = true := by decide +kernel
-/-- the 20 entries z used for points above (0,0): z is a square and z − 1 is not (entries and 1 in Montgomery form) -/
-theorem L1_z_nqr_table : W64.Z_NQR_TABLE.length = 20 ∧
-    W64.Z_NQR_TABLE.all (fun z => Fp2N.isSquare FP_p z && !Fp2N.isSquare FP_p (Fp2N.sub FP_p z (FP_ONE, 0))) = true := by decide +kernel
-end L1
-
-/-! ## level 3 -/
-section L3
-open SqiGen.L3
-
-theorem L3_p_plus_one : FP_p + 1 = p_cofactor_for_2f * 2 ^ D_POWER_OF_2 := by decide +kernel
-theorem L3_p_mod4 : FP_p % 4 = 3 := by decide +kernel
-theorem L3_p_limbs : FP_p_limbs.length = D_NWORDS_FIELD ∧ FP_p_limbs.all (· < 2 ^ 64) = true := by decide +kernel
-theorem L3_p_fits : FP_p < 2 ^ (64 * D_NWORDS_FIELD) ∧ 2 ^ (64 * D_NWORDS_FIELD - 8) ≤ 2 * FP_p := by decide +kernel
-theorem L3_one_is_R : FP_ONE = 2 ^ (64 * D_NWORDS_FIELD) % FP_p ∧ FP_ZERO = 0 := by decide +kernel
-theorem L3_TWOpF : TWOpF = 2 ^ D_POWER_OF_2 ∧ 2 * TWOpFm1 = TWOpF ∧ TWOpF_limbs.length = D_NWORDS_ORDER := by decide +kernel
-theorem L3_torsion_consts : W64.TORSION_PLUS_EVEN_POWER = D_POWER_OF_2 ∧ W64.CHARACTERISTIC = (FP_p : Int) ∧
-    W64.TORSION_PLUS_2POWER = (2 : Int) ^ D_POWER_OF_2 ∧ W64.DEGREE_CHALLENGE = (2 : Int) ^ D_POWER_OF_2 ∧
-    W64.QUATALG_PINFTY_p = (FP_p : Int) ∧
-    W64.QUATALG_PINFTY_gram = [[1, 0, 0, 0], [0, 1, 0, 0], [0, 0, (FP_p : Int), 0], [0, 0, 0, (FP_p : Int)]] := by decide +kernel
-theorem L3_p_minus_one : (FP_p - 1) % (W64.TORSION_ODD_MINUS.toNat) = 0 ∧ (FP_p + 1) % (W64.TORSION_ODD_PLUS.toNat) = 0 ∧
-    W64.TORSION_ODD = W64.TORSION_ODD_PLUS * W64.TORSION_ODD_MINUS := by decide +kernel
-theorem L3_widths_agree : WIDTH16_all = WIDTH64_all ∧ WIDTH32_all = WIDTH64_all := by decide +kernel
-theorem L3_sizes : D_SQIsign2D_response_length + 2 ≤ D_POWER_OF_2 ∧ D_BITS = 64 * D_NWORDS_FIELD ∧
-    D_FP_ENCODED_BYTES = 8 * D_NWORDS_FIELD ∧ D_FP2_ENCODED_BYTES = 2 * D_FP_ENCODED_BYTES ∧
-    D_POWER_OF_2 ≤ 8 * D_TORSION_2POWER_BYTES ∧ D_POWER_OF_2 < 64 * D_NWORDS_ORDER := by decide +kernel
-
-/-- every row `i` of the 4-isogeny strategy table is a valid strategy for the ⌊(f-i)/2⌋ 4-isogeny steps of a chain of length f-i -/
-theorem L3_STRATEGY4_rows : rowsValid (fun i => (D_POWER_OF_2 - i) / 2) STRATEGY4_cols STRATEGY4 = true := by decide +kernel
-/-- every row `i` of the dimension-2 strategy table is a valid strategy for a (2,2)-chain of length f-i -/
-theorem L3_strategies_rows : rowsValid (fun i => D_POWER_OF_2 - i) strategies_cols strategies = true := by decide +kernel
-/-- the tables have exactly as many rows as lengths the code can ask for, and no row needs more columns than declared -/
-theorem L3_table_shapes : STRATEGY4.length = strategies.length ∧ STRATEGY4.length ≤ D_POWER_OF_2 ∧
-    STRATEGY4_cols = D_POWER_OF_2 / 2 ∧ strategies_cols + 1 = D_POWER_OF_2 := by decide +kernel
-
-/-- ring relations of the endomorphism action on E0[2^f] (generators 1, i, (i+j)/2, (1+k)/2 of O0) -/
-theorem L3_action_relations :
-    let N : Int := 2 ^ D_POWER_OF_2
-    Mat2.wellShaped W64.ACTION_I && Mat2.wellShaped W64.ACTION_J && Mat2.wellShaped W64.ACTION_K &&
-    Mat2.wellShaped W64.ACTION_GEN2 && Mat2.wellShaped W64.ACTION_GEN3 && Mat2.wellShaped W64.ACTION_GEN4 &&
-    Mat2.eqMod N (Mat2.mul W64.ACTION_I W64.ACTION_I) (Mat2.scalar (-1)) &&
-    Mat2.eqMod N (Mat2.mul W64.ACTION_J W64.ACTION_J) (Mat2.scalar (-(FP_p : Int))) &&
-    Mat2.eqMod N (Mat2.mul W64.ACTION_I W64.ACTION_J) W64.ACTION_K &&
-    Mat2.eqMod N (Mat2.mul W64.ACTION_J W64.ACTION_I) (Mat2.smul (-1) W64.ACTION_K) &&
-    Mat2.eqMod N W64.ACTION_GEN2 W64.ACTION_I &&
-    Mat2.eqMod N (Mat2.smul 2 W64.ACTION_GEN3) (Mat2.add W64.ACTION_I W64.ACTION_J) &&
-    Mat2.eqMod N (Mat2.smul 2 W64.ACTION_GEN4) (Mat2.add (Mat2.scalar 1) W64.ACTION_K) = true := by decide +kernel
-/-- determinant = reduced norm (mod 2^f): n(i)=1, n(j)=p, n(k)=p, n((i+j)/2)=(1+p)/4, n((1+k)/2)=(1+p)/4 -/
-theorem L3_action_dets :
-    let N : Int := 2 ^ D_POWER_OF_2
-    (Mat2.det W64.ACTION_I - 1) % N = 0 ∧ (Mat2.det W64.ACTION_J - FP_p) % N = 0 ∧ (Mat2.det W64.ACTION_K - FP_p) % N = 0 ∧
-    (Mat2.det W64.ACTION_GEN3 - ((FP_p : Int) + 1) / 4) % N = 0 ∧ (Mat2.det W64.ACTION_GEN4 - ((FP_p : Int) + 1) / 4) % N = 0 := by decide +kernel
-
-/-- non-vacuity / lifting: row 0 really is a strategy in the inductive sense, hence drives the machine -/
-example : ∃ s pad, Strat (D_POWER_OF_2 - 0) s ∧ strategies[0]! = s ++ pad :=
-  let ⟨s, pad, h1, h2, _, _⟩ := rowsValid_sound L3_strategies_rows 0 (by decide +kernel)
-  ⟨s, pad, h1, by rw [← h2]; rfl⟩
-
-/-- the base curve is y² = x³ + x: (A : C) = (0 : c), c ≠ 0 -/
-theorem L3_curve_E0 : Fp2N.isZero FP_p W64.CURVE_E0.1 = true ∧ Fp2N.isZero FP_p W64.CURVE_E0.2 = false := by decide +kernel
-/-- the precomputed 2^f-torsion basis of E0: P, Q (and the stored third point) have exact order 2^f under the
-    verified doubling formula, and [2^(f-1)]P ≠ [2^(f-1)]Q, so P and Q generate E0[2^f] -/
-theorem L3_basis_even_orders :
-    W64.BASIS_EVEN.length = 3 ∧
-    W64.BASIS_EVEN.all (fun P => Fp2N.exactOrder2f FP_p W64.CURVE_E0.1 W64.CURVE_E0.2 D_POWER_OF_2 P) = true ∧
-    Fp2N.projEq FP_p (Fp2N.xDBLiter FP_p W64.CURVE_E0.1 W64.CURVE_E0.2 (D_POWER_OF_2 - 1) (W64.BASIS_EVEN[0]!))
-                     (Fp2N.xDBLiter FP_p W64.CURVE_E0.1 W64.CURVE_E0.2 (D_POWER_OF_2 - 1) (W64.BASIS_EVEN[1]!)) = false := by
-  decide +kernel
-/-- the 20 table entries used as x-coordinates of points not above (0,0) are non-squares in GF(p²) -/
-theorem L3_nqr_table : W64.NQR_TABLE.length = 20 ∧ W64.NQR_TABLE.all (fun x => !Fp2N.isSquare FP_p x) = true := by decide +kernel
-/-- the 20 entries z used for points above (0,0): z is a square and z − 1 is not (entries and 1 in Montgomery form) -/
-theorem L3_z_nqr_table : W64.Z_NQR_TABLE.length = 20 ∧
-    W64.Z_NQR_TABLE.all (fun z => Fp2N.isSquare FP_p z && !Fp2N.isSquare FP_p (Fp2N.sub FP_p z (FP_ONE, 0))) = true := by decide +kernel
-end L3
-
-/-! ## level 5 -/
-section L5
-open SqiGen.L5
-
-theorem L5_p_plus_one : FP_p + 1 = p_cofactor_for_2f * 2 ^ D_POWER_OF_2 := by decide +kernel
-theorem L5_p_mod4 : FP_p % 4 = 3 := by decide +kernel
-theorem L5_p_limbs : FP_p_limbs.length = D_NWORDS_FIELD ∧ FP_p_limbs.all (· < 2 ^ 64) = true := by decide +kernel
-theorem L5_p_fits : FP_p < 2 ^ (64 * D_NWORDS_FIELD) ∧ 2 ^ (64 * D_NWORDS_FIELD - 8) ≤ 2 * FP_p := by decide +kernel
-theorem L5_one_is_R : FP_ONE = 2 ^ (64 * D_NWORDS_FIELD) % FP_p ∧ FP_ZERO = 0 := by decide +kernel
-theorem L5_TWOpF : TWOpF = 2 ^ D_POWER_OF_2 ∧ 2 * TWOpFm1 = TWOpF ∧ TWOpF_limbs.length = D_NWORDS_ORDER := by decide +kernel
-theorem L5_torsion_consts : W64.TORSION_PLUS_EVEN_POWER = D_POWER_OF_2 ∧ W64.CHARACTERISTIC = (FP_p : Int) ∧
-    W64.TORSION_PLUS_2POWER = (2 : Int) ^ D_POWER_OF_2 ∧ W64.DEGREE_CHALLENGE = (2 : Int) ^ D_POWER_OF_2 ∧
-    W64.QUATALG_PINFTY_p = (FP_p : Int) ∧
-    W64.QUATALG_PINFTY_gram = [[1, 0, 0, 0], [0, 1, 0, 0], [0, 0, (FP_p : Int), 0], [0, 0, 0, (FP_p : Int)]] := by decide +kernel
-theorem L5_p_minus_one : (FP_p - 1) % (W64.TORSION_ODD_MINUS.toNat) = 0 ∧ (FP_p + 1) % (W64.TORSION_ODD_PLUS.toNat) = 0 ∧
-    W64.TORSION_ODD = W64.TORSION_ODD_PLUS * W64.TORSION_ODD_MINUS := by decide +kernel
-theorem L5_widths_agree : WIDTH16_all = WIDTH64_all ∧ WIDTH32_all = WIDTH64_all := by decide +kernel
-theorem L5_sizes : D_SQIsign2D_response_length + 2 ≤ D_POWER_OF_2 ∧ D_BITS = 64 * D_NWORDS_FIELD ∧
-    D_FP_ENCODED_BYTES = 8 * D_NWORDS_FIELD ∧ D_FP2_ENCODED_BYTES = 2 * D_FP_ENCODED_BYTES ∧
-    D_POWER_OF_2 ≤ 8 * D_TORSION_2POWER_BYTES ∧ D_POWER_OF_2 < 64 * D_NWORDS_ORDER := by decide +kernel
-
-/-- every row `i` of the 4-isogeny strategy table is a valid strategy for the ⌊(f-i)/2⌋ 4-isogeny steps of a chain of length f-i -/
-theorem L5_STRATEGY4_rows : rowsValid (fun i => (D_POWER_OF_2 - i) / 2) STRATEGY4_cols STRATEGY4 = true := by decide +kernel
-/-- every row `i` of the dimension-2 strategy table is a valid strategy for a (2,2)-chain of length f-i -/
-theorem L5_strategies_rows : rowsValid (fun i => D_POWER_OF_2 - i) strategies_cols strategies = true := by decide +kernel
-/-- the tables have exactly as many rows as lengths the code can ask for, and no row needs more columns than declared -/
-theorem L5_table_shapes : STRATEGY4.length = strategies.length ∧ STRATEGY4.length ≤ D_POWER_OF_2 ∧
-    STRATEGY4_cols = D_POWER_OF_2 / 2 ∧ strategies_cols + 1 = D_POWER_OF_2 := by decide +kernel
-
-/-- ring relations of the endomorphism action on E0[2^f] (generators 1, i, (i+j)/2, (1+k)/2 of O0) -/
-theorem L5_action_relations :
-    let N : Int := 2 ^ D_POWER_OF_2
-    Mat2.wellShaped W64.ACTION_I && Mat2.wellShaped W64.ACTION_J && Mat2.wellShaped W64.ACTION_K &&
-    Mat2.wellShaped W64.ACTION_GEN2 && Mat2.wellShaped W64.ACTION_GEN3 && Mat2.wellShaped W64.ACTION_GEN4 &&
-    Mat2.eqMod N (Mat2.mul W64.ACTION_I W64.ACTION_I) (Mat2.scalar (-1)) &&
-    Mat2.eqMod N (Mat2.mul W64.ACTION_J W64.ACTION_J) (Mat2.scalar (-(FP_p : Int))) &&
-    Mat2.eqMod N (Mat2.mul W64.ACTION_I W64.ACTION_J) W64.ACTION_K &&
-    Mat2.eqMod N (Mat2.mul W64.ACTION_J W64.ACTION_I) (Mat2.smul (-1) W64.ACTION_K) &&
-    Mat2.eqMod N W64.ACTION_GEN2 W64.ACTION_I &&
-    Mat2.eqMod N (Mat2.smul 2 W64.ACTION_GEN3) (Mat2.add W64.ACTION_I W64.ACTION_J) &&
-    Mat2.eqMod N (Mat2.smul 2 W64.ACTION_GEN4) (Mat2.add (Mat2.scalar 1) W64.ACTION_K) = true := by decide +kernel
-/-- determinant = reduced norm (mod 2^f): n(i)=1, n(j)=p, n(k)=p, n((i+j)/2)=(1+p)/4, n((1+k)/2)=(1+p)/4 -/
-theorem L5_action_dets :
-    let N : Int := 2 ^ D_POWER_OF_2
-    (Mat2.det W64.ACTION_I - 1) % N = 0 ∧ (Mat2.det W64.ACTION_J - FP_p) % N = 0 ∧ (Mat2.det W64.ACTION_K - FP_p) % N = 0 ∧
-    (Mat2.det W64.ACTION_GEN3 - ((FP_p : Int) + 1) / 4) % N = 0 ∧ (Mat2.det W64.ACTION_GEN4 - ((FP_p : Int) + 1) / 4) % N = 0 := by decide +kernel
-
-/-- non-vacuity / lifting: row 0 really is a strategy in the inductive sense, hence drives the machine -/
-example : ∃ s pad, Strat (D_POWER_OF_2 - 0) s ∧ strategies[0]! = s ++ pad :=
-  let ⟨s, pad, h1, h2, _, _⟩ := rowsValid_sound L5_strategies_rows 0 (by decide +kernel)
-  ⟨s, pad, h1, by rw [← h2]; rfl⟩
-
-/-- the base curve is y² = x³ + x: (A : C) = (0 : c), c ≠ 0 -/
-theorem L5_curve_E0 : Fp2N.isZero FP_p W64.CURVE_E0.1 = true ∧ Fp2N.isZero FP_p W64.CURVE_E0.2 = false := by decide +kernel
-/-- the precomputed 2^f-torsion basis of E0: P, Q (and the stored third point) have exact order 2^f under the
-    verified doubling formula, and [2^(f-1)]P ≠ [2^(f-1)]Q, so P and Q generate E0[2^f] -/
-theorem L5_basis_even_orders :
-    W64.BASIS_EVEN.length = 3 ∧
-    W64.BASIS_EVEN.all (fun P => Fp2N.exactOrder2f FP_p W64.CURVE_E0.1 W64.CURVE_E0.2 D_POWER_OF_2 P) = true ∧
-    Fp2N.projEq FP_p (Fp2N.xDBLiter FP_p W64.CURVE_E0.1 W64.CURVE_E0.2 (D_POWER_OF_2 - 1) (W64.BASIS_EVEN[0]!))
-                     (Fp2N.xDBLiter FP_p W64.CURVE_E0.1 W64.CURVE_E0.2 (D_POWER_OF_2 - 1) (W64.BASIS_EVEN[1]!)) = false := by
-  decide +kernel
-/-- the 20 table entries used as x-coordinates of points not above (0,0) are non-squares in GF(p²) -/
-theorem L5_nqr_table : W64.NQR_TABLE.length = 20 ∧ W64.NQR_TABLE.all (fun x => !Fp2N.isSquare FP_p x) = true := by decide +kernel
-/-- the 20 entries z used for points above (0,0): z is a square and z − 1 is not (entries and 1 in Montgomery form) -/
-theorem L5_z_nqr_table : W64.Z_NQR_TABLE.length = 20 ∧
-    W64.Z_NQR_TABLE.all (fun z => Fp2N.isSquare FP_p z && !Fp2N.isSquare FP_p (Fp2N.sub FP_p z (FP_ONE, 0))) = true := by decide +kernel
-end L5
 /-! ## the characteristics are prime (N+1 certificate checked by the kernel, see SqiProofs.Primality) -/
 theorem L1_characteristic_prime : Nat.Prime SqiGen.L1.FP_p := SqiProofs.Primes.L1_prime
 theorem L3_characteristic_prime : Nat.Prime SqiGen.L3.FP_p := SqiProofs.Primes.L3_prime
